@@ -696,7 +696,10 @@ func (s *TxStore) Rollback(tx mwdb.DBTransaction, height uint64) error {
 		// output it spends.
 		txStarts := make(map[wire.Hash]int, len(rbBlock.transactions))
 		for i := range rbBlock.transactions {
-			_, recVal := existsTxRecord(nsTxRecords, &rbBlock.transactions[i], &rbBlock.BlockMeta)
+			recVal, err := nsTxRecords.Get(keyTxRecord(&rbBlock.transactions[i], &rbBlock.BlockMeta))
+			if err != nil {
+				return err
+			}
 			if _, txLoc, err := readTxRecordLoc(recVal); err == nil {
 				txStarts[rbBlock.transactions[i]] = txLoc.TxStart
 			}
@@ -710,7 +713,13 @@ func (s *TxStore) Rollback(tx mwdb.DBTransaction, height uint64) error {
 		for i := len(rbBlock.transactions) - 1; i >= 0; i-- {
 			txHash := &rbBlock.transactions[i]
 
-			recKey, recVal := existsTxRecord(nsTxRecords, txHash, &rbBlock.BlockMeta)
+			recKey := keyTxRecord(txHash, &rbBlock.BlockMeta)
+			recVal, err := nsTxRecords.Get(recKey)
+			if err != nil {
+				// a storage error is not a missing record: skipping the transaction here would
+				// roll the block back without undoing it
+				return err
+			}
 			blkLoc, txLoc, err := readTxRecordLoc(recVal)
 			if err != nil {
 				logging.CPrint(logging.WARN, "readTxRecordLoc failed",
